@@ -189,6 +189,16 @@ Section Proofs.
     rewrite (app_removelast_last_ngram g Hg) at 1. apply two_pass_is_backoff_score.
   Qed.
 
+  (* every record the executable model emits carries the sums of the specification *)
+  Theorem merged_is_spec : forall cs g P B, In (g, (P, B)) (merged K k0 kadd kmul cs) -> g <> [] ->
+    In g (InterpModel.union_ngrams K cs) /\
+    P = wsum (comps_of K cs) (fun T => score T (removelast g) (last g UNK)) /\
+    B = wsum (comps_of K cs) (fun T => bo T g).
+  Proof.
+    intros cs g P B Hin Hg. unfold merged in Hin. apply in_map_iff in Hin as [g' [He Hin]].
+    inversion He; subst. split; [exact Hin|]. split; [now apply merged_rows|reflexivity].
+  Qed.
+
   (* ---- pass 3: with the repaired exclusion rule every n-gram below the top order has exactly one
           back-off record, so the two streams ReunifyBackoff zips have the same keys and length ------ *)
   Notation union_ngrams := (union_ngrams K).
